@@ -90,4 +90,4 @@ package libp2pwebtransport
 //@ loop 0 invariant m.nextConfig != nil && fmod(m.nextConfig.End(), SEC) == 0
 //@ callsite Reset#0 requires arg1 == m.currentConfig.End() - S - now
 //@ callsite rollConfig#0 requires called(Now, 0) && now == ret(Now, 0, 0)
-//@ modifies m.lastConfig, m.currentConfig, m.nextConfig, m.serializedCertHashes, m.addrComp, elems(m.serializedCertHashes)
+//@ modifies m.lastConfig, m.currentConfig, m.nextConfig, m.serializedCertHashes, m.addrComp, elems(_)
